@@ -64,6 +64,34 @@ def table_obligations(rep):
             rep.add_eval(f"{P}/converter_unit.{tname}/si.last_digit/{k}", ok,
                          detail=f"literal {txt} vs SI {float(si[k])!r} (tolerance {float(tol)!r})",
                          replay={'kind': 'c01.table', 'table': tname, 'key': k})
+    # units of one table that are decimal multiples (or aliases) of one another by definition -- mmol / mol, cm3(STP) / L(STP),
+    # Pa / kPa / bar, mg / g / kg, cm3 / mL / L -- stand in *exactly* that ratio in the code table too: rounding each literal
+    # separately to its own last digit is not enough for "1 L(STP) is 1000 cm3(STP)"
+    def _pow10(r):
+        if r <= 0:
+            return False
+        while r.denominator == 1 and r.numerator % 10 == 0 and r != 0:
+            r = r / 10
+        while r.numerator == 1 and r.denominator % 10 == 0:
+            r = r * 10
+        return r == 1
+    for tname, si in spec.items():
+        texts = st['texts'][tname]
+        vals = {}
+        for k, txt in texts.items():
+            try:
+                vals[k] = Fraction(txt)
+            except ValueError:
+                vals[k] = Fraction(repr(float(eval(txt))))
+        keys = [k for k in texts if k in si]
+        for i, u in enumerate(keys):
+            for v in keys[i + 1:]:
+                r = si[u] / si[v]
+                if _pow10(r):
+                    ok = vals[v] != 0 and vals[u] / vals[v] == r
+                    rep.add_eval(f"{P}/converter_unit.{tname}/si.exact_decimal_ratio/{u}:{v}", ok,
+                                 detail=f"literals {texts[u]} / {texts[v]} = {float(vals[u] / vals[v]) if vals[v] else 'inf'!r}, by definition {float(r)!r}",
+                                 replay={'kind': 'c01.table_ratio', 'table': tname, 'u': u, 'v': v})
     # temperature table: offsets +-273.15
     tt = st['texts']['_TEMPERATURE_UNITS']
     rep.add_eval(f"{P}/converter_unit._TEMPERATURE_UNITS/si.offsets",
